@@ -750,6 +750,23 @@ def normalise_loops(fn):
     return fn
 
 
+def merge_subscripts(node):
+    """in place / returned: A[i][j] with plain indices reads as A[i, j] (a row view of a numpy array indexed again)"""
+    class T(ast.NodeTransformer):
+        def visit_Subscript(self, n):
+            self.generic_visit(n)
+            v = n.value
+            if isinstance(v, ast.Subscript):
+                def parts(sl):
+                    return list(sl.elts) if isinstance(sl, ast.Tuple) else [sl]
+                inner, outer = parts(v.slice), parts(n.slice)
+                if not any(isinstance(x, (ast.Slice, ast.Starred)) or (isinstance(x, ast.Constant) and x.value is Ellipsis) or
+                           (isinstance(x, ast.Constant) and x.value is None) for x in inner):
+                    return ast.copy_location(ast.Subscript(value=v.value, slice=ast.Tuple(elts=inner + outer, ctx=ast.Load()), ctx=n.ctx), n)
+            return n
+    return ast.fix_missing_locations(T().visit(node))
+
+
 def const_int(node):
     """value of an integer constant expression ( 65535, pow(2, 16) - 1, 2 ** 16 - 1, 1 << 16, np.iinfo(np.uint16).max ) or None"""
     if isinstance(node, ast.Constant) and isinstance(node.value, int) and not isinstance(node.value, bool):
